@@ -71,7 +71,8 @@ def table(tls):
 
 
 def snap(obj, fake):
-    return {"cutoff": obj.cutoff, "connected": getattr(obj, "connected", None),
+    return {"idle_timer_start": getattr(getattr(obj, "timer", None), "start", None),      # (a restart of the idle / reconnect timer)
+            "cutoff": obj.cutoff, "connected": getattr(obj, "connected", None),
             "accepted": getattr(obj, "accepted", None), "same_socket": obj.cs is fake,
             "closed": fake.closed, "shutdowns": len(fake.shutdowns),
             "txes": [bytes(d).hex() for d in obj.txes], "rxbs": bytes(obj.rxbs).hex()}
@@ -178,6 +179,10 @@ def stream_case(ctx, cls, op, via, prior, cat, item):
         if via == "direct":
             for i in range(prior):
                 obj.receive()
+    try:
+        obj.store.stamp = obj.store.stamp + 1.5       # time has passed since the last successful operation
+    except Exception:      # noqa
+        pass
     before = snap(obj, fake)
     raised = None
     result = None
@@ -238,6 +243,8 @@ def stream_case(ctx, cls, op, via, prior, cat, item):
                       "%s.%s: would-block %s changed the connection state" % (cls, op, name), wit)
         else:
             exp = dict(before)
+            if prior:
+                exp["idle_timer_start"] = after["idle_timer_start"]    # the successful operations of the same call are activity
             if op == "send":
                 exp["txes"] = [payload[prior:prior + 1].hex()]       # earlier ones were sent, the blocked one stays
             else:
